@@ -9,13 +9,22 @@
 
   Setting (DESIGN §5): `RSys` = regulator model × environment of tables that
   follow instructions; `Reachable s` = `s` is obtained from a fresh regulator with
-  ANY setting `2 ≤ min ≤ max` by ANY finite sequence of valid operations
+  ANY setting with `1 ≤ max` by ANY finite sequence of valid operations
   (`RSys.ok`: fresh ids on registration, the status never returns to `pending`,
   a syncing table eliminates at most its members, releases exactly what it is
-  told to, and the dispatch choices are ones `getAvailableTable` can make).
+  told to, and the dispatch choices are ones `getAvailableTable` can make;
+  these conditions never block a history, `Reachable.add_total`, `.status_total`,
+  `.sync_total` in Proofs/RegTotal.lean).
+  The property text restricts the settings to `2 ≤ min ≤ max`; NO theorem below
+  needs that: they hold for every `min` (also `min = 0`, `min > max`, where
+  `initial_tables_have_min` is true because then no table is ever opened) and
+  every `max ≥ 1` (with `max = 0` the Go code divides by zero in `float64`).
+  What IS needed is that the status only moves forward: on the wider domain
+  `ReachableAny` of C09 (any `SetStatus` at any time) capacity is FALSE, see
+  `capacity_fails_after_return_to_pending` at the end (observation O11).
   All theorems are for all settings and all histories; no bound on sizes.
 -/
-import Pokerface.Proofs.RegProps
+import Pokerface.Proofs.RegTotal
 
 namespace Pokerface.C19
 open Pokerface Reg RSys
@@ -180,7 +189,7 @@ theorem initial_tables_have_min_release {s : RSys} (h : Reachable s) (t : Nat)
     a table of seven). -/
 def d5 : List EOp := [.add [1,2,3,4,5,6,7,8,9,10,11,12,13] [], .status .normal []]
 
-example : Reachable ((RSys.init 6 5).run d5) := (Reachable.init 6 5 (by decide) (by decide)).run d5 (by decide)
+example : Reachable ((RSys.init 6 5).run d5) := (Reachable.init 6 5 (by decide)).run d5 (by decide)
 example : ((RSys.init 6 5).run d5).env.members = [(1, [1,2,3,4,5,6]), (2, [7,8,9,10,11,12])] := by decide
 example : ((RSys.init 6 5).run d5).r.queue = [13] := by decide
 /-- the start operation opened tables (hypotheses of `request_le_max`, `initial_tables_have_min`,
@@ -196,24 +205,57 @@ def longer : List EOp := d5 ++
   [.sync 1 [1,2] [3,4,5,6] [] [3,4,5,6,13] [], .add [14] [1], .sync 2 [7] [8,9,10,11,12] [] [8,9,10,11,12] []]
 
 example : Reachable ((RSys.init 6 5).run longer) :=
-  (Reachable.init 6 5 (by decide) (by decide)).run longer (by decide)
+  (Reachable.init 6 5 (by decide)).run longer (by decide)
 example : ((RSys.init 6 5).run longer).env.members =
     [(1, [3,4,5,6,13,14]), (2, [8,9,10,11,12])] := by decide
 /-- the late registrant was handed to table 1 by `assignPlayersFn` (hypotheses of `capacity_during`) -/
 example : ((RSys.init 6 5).run (d5 ++ [.sync 1 [1,2] [3,4,5,6] [] [3,4,5,6,13] [], .add [14] [1]])).r.calls =
     [.assign 1 [14]] := by decide
 
-/-! ### why the domain excludes a return to `pending` (observation, not a violation)
+/-! ### why the domain excludes a return to `pending` (observation O11)
 
-`SetStatus(Pending)` on a running competition is outside the regulator alphabet of DESIGN §5 (the
-status only moves forward).  If a caller did it, registrations would pile up in the queue while a
-table's `Required` is outstanding, `SyncState` would top the table up WITHOUT clearing `Required`,
-and the next start would dispatch `Required` more players: six players at a table for four. -/
+`SetStatus(Pending)` on a running competition is accepted by the Go code but is outside the
+regulator alphabet of DESIGN §5 (the status only moves forward); C09 is proved with it
+(`ReachableAny`), C19 cannot be: registrations pile up in the queue while a table's `Required`
+is outstanding, `SyncState` tops the table up from the queue WITHOUT clearing `Required`, and the
+next start dispatches `Required` more players: six players at a table for four. -/
 def backToPending : List EOp :=
   [.add [1,2] [], .status .normal [], .status .pending [], .add [3,4] [],
    .sync 1 [] [1,2] [] [1,2,3,4] [], .add [5,6] [], .status .normal [1]]
 
 example : ((RSys.init 4 2).run backToPending).env.members = [(1, [1,2,3,4,5,6])] := by decide
 example : ¬ (RSys.init 4 2).allOk backToPending := by decide
+example : (RSys.init 4 2).allOkAny backToPending := by decide
+
+/-- **capacity is FALSE once the status may return to `Pending`** (kernel-checked witness, setting
+    4/2 which satisfies `2 ≤ min ≤ max`): a state reachable by operations that are valid in every
+    respect except that one `SetStatus(Pending)` follows `SetStatus(Normal)`, in which a table holds
+    more than `max` players — both in reality and on the regulator's sheet.  Reproduced on the Go
+    code (report of the domain generalisation). -/
+theorem capacity_fails_after_return_to_pending :
+    ∃ s : RSys, ReachableAny s ∧ 2 ≤ s.r.min ∧ s.r.min ≤ s.r.max ∧
+      (∃ e ∈ s.env.members, s.r.max < e.2.length) ∧ (∃ tb ∈ s.r.tables, (s.r.max : Int) < tb.count) :=
+  ⟨(RSys.init 4 2).run backToPending,
+   (ReachableAny.init 4 2 (by decide)).run backToPending (by decide),
+   by decide, by decide, by decide, by decide⟩
+
+/-- what survives on the wide domain: the tables OPENED never exceed `max` (only top-ups can) -/
+theorem request_le_max_any {s : RSys} (h : ReachableAny s) (op : EOp) (hok : s.okAny op) :
+    ∀ id ps, RCall.requestTable id ps ∈ (s.step op).r.calls → ps.length ≤ s.r.max :=
+  ((SInv0.of_reachable h).step_full op hok).2.reqmax
+
+/-! ### non-vacuity outside `2 ≤ min ≤ max` -/
+
+/-- 1/1: every table has one seat -/
+example : Reachable ((RSys.init 1 1).run [.status .normal [], .add [1,2,3] []]) :=
+  (Reachable.init 1 1 (by decide)).run _ (by decide)
+example : ((RSys.init 1 1).run [.status .normal [], .add [1,2,3] []]).env.members = [(1, [1]), (2, [2]), (3, [3])] := by
+  decide
+/-- 3/1: a single registrant gets a table -/
+example : ((RSys.init 3 1).run [.status .normal [], .add [1] []]).env.members = [(1, [1])] := by decide
+/-- 2/3 (`min > max`): no table is ever opened, everybody waits -/
+example : Reachable ((RSys.init 2 3).run [.add [1,2,3,4,5,6,7] [], .status .normal []]) :=
+  (Reachable.init 2 3 (by decide)).run _ (by decide)
+example : ((RSys.init 2 3).run [.add [1,2,3,4,5,6,7] [], .status .normal []]).env.members = [] := by decide
 
 end Pokerface.C19
